@@ -17,6 +17,8 @@ class AVal:
             return self.pol
         if self.kind == "ge":
             return True if (self.v is not None and self.v >= 1) else None
+        if self.kind == "nonzero":
+            return True
         return None
 
     def __repr__(self):
@@ -239,8 +241,13 @@ def _branch(ps, cond, pol):
                     continue
                 if v.kind == "const":
                     continue
+                if v.kind in ("nonzero", "ge") and v.truth() is not None:
+                    continue
                 if v.kind == "unknown":
-                    ps.env[a["decl"]["name"]] = AVal("const", 1 if apol else 0) if a.get("tk") == "bool" else v
+                    if a.get("tk") == "bool":
+                        ps.env[a["decl"]["name"]] = AVal("const", 1 if apol else 0)
+                    elif a.get("tk") in ("int", "enum"):
+                        ps.env[a["decl"]["name"]] = AVal("nonzero") if apol else AVal("const", 0)
         if a.k == "MemberExpr" and a.get("path") in ps.env:
             t = ps.env[a["path"]].truth()
             if t is not None and t != apol:
